@@ -931,4 +931,147 @@ def laFloat : LookAhead := fun msg startpos mode =>
   else if m = EDIFACT ∧ !nextAre msg startpos 4 isNativeEDIFACT then ASCII
   else m
 
+/-! # Part 5 — the look-ahead in exact arithmetic, with the float rounding made explicit
+
+  All increments of `lookAheadTest` are multiples of 1/12 (1/2, 2/3, 4/3, 8/3, 10/3, 13/3, 3/4, 13/4, 17/4, 1, 2,
+  start values 0, 1, 1.25, 2, 2.25): the counts are kept as natural numbers in units of 1/12, `math.Ceil` is
+  `(n + 11) / 12`.  The look-ahead depends on a character only through seven predicates (`CharClass`), so it is
+  defined on the list of character classes.
+
+  float64 vs exact: the ASCII, EDIFACT and Base-256 counts are sums of dyadic rationals (0.5, 0.75, 3.25, 4.25,
+  1, 1.25 …) and are exact in float64.  The C40, Text and X12 counts are sums of thirds; their float64 value can
+  exceed an INTEGER exact value by a few ulp (15 x 2/3 → 10.000000000000002), and then `math.Ceil` is one higher
+  than in exact arithmetic.  `laExactR ρ` makes this explicit: `ρ n k` says whether the count of mode `k`
+  (1 = C40, 2 = Text, 3 = X12) is rounded up at step `n` when its exact value is an integer.
+  `laExact = laExactR (no bump)` is plain exact arithmetic.  The `c02` harness (suite dm-la, op `laxr`) recomputes
+  the float64 sums next to the exact ones, checks that they differ only in this way, and compares the decision of
+  the real `HighLevelEncoder_lookAheadTest` with `laExactR` under the observed bumps. -/
+
+/-- what the look-ahead distinguishes about a character -/
+structure CharClass where
+  digit : Bool
+  ext : Bool
+  c40 : Bool
+  text : Bool
+  x12 : Bool
+  edi : Bool
+  sep : Bool
+  deriving Repr, DecidableEq
+
+def classOf (ch : Nat) : CharClass :=
+  ⟨isDigit ch, isExtended ch, isNativeC40 ch, isNativeText ch, isNativeX12 ch, isNativeEDIFACT ch, isX12TermSep ch⟩
+
+/-- counts in units of 1/12 -/
+structure ECounts where
+  a : Nat
+  c : Nat
+  t : Nat
+  x : Nat
+  e : Nat
+  b : Nat
+  deriving Repr, DecidableEq
+
+/-- `int(math.Ceil(v))` for `v = n/12` -/
+def ceil12 (n : Nat) : Nat := (n + 11) / 12
+
+/-- float rounding oracle: step (number of characters processed) → mode (1, 2, 3) → "rounded up at an integer" -/
+abbrev Bump := Nat → Nat → Bool
+
+def noBump : Bump := fun _ _ => false
+
+/-- `int(math.Ceil(v))` of a sum of thirds: one higher than exact only if the exact value is an integer and the
+    float sum came out above it -/
+def ceil12R (bump : Bool) (n : Nat) : Nat := ceil12 n + (if n % 12 = 0 ∧ bump then 1 else 0)
+
+def mkIntCounts (a c t x e b : Nat) : IntCounts :=
+  ⟨a, c, t, x, e, b, Nat.min 2147483647 (Nat.min a (Nat.min c (Nat.min t (Nat.min x (Nat.min e b)))))⟩
+
+def eIntCountsR (ρ : Bump) (n : Nat) (k : ECounts) : IntCounts :=
+  mkIntCounts (ceil12 k.a) (ceil12R (ρ n 1) k.c) (ceil12R (ρ n 2) k.t) (ceil12R (ρ n 3) k.x) (ceil12 k.e) (ceil12 k.b)
+
+/-- steps L-Q -/
+def stepECounts (k : ECounts) (ch : CharClass) : ECounts :=
+  let a :=
+    if ch.digit then k.a + 6
+    else if ch.ext then ceil12 k.a * 12 + 24
+    else ceil12 k.a * 12 + 12
+  let c := if ch.c40 then k.c + 8 else if ch.ext then k.c + 32 else k.c + 16
+  let t := if ch.text then k.t + 8 else if ch.ext then k.t + 32 else k.t + 16
+  let x := if ch.x12 then k.x + 8 else if ch.ext then k.x + 52 else k.x + 40
+  let e := if ch.edi then k.e + 9 else if ch.ext then k.e + 51 else k.e + 39
+  ⟨a, c, t, x, e, k.b + 12⟩
+
+/-- the C40 / X12 tie scan of step R on character classes -/
+def x12ScanC : List CharClass → Nat
+  | [] => C40
+  | tc :: rest => if tc.sep then X12 else if !tc.x12 then C40 else x12ScanC rest
+
+/-- step K: the decision at the end of the message -/
+def decideK (i : IntCounts) : Nat :=
+  let n := i.minCount
+  if i.a = i.min then ASCII
+  else if n = 1 ∧ i.isMin i.b then BASE256
+  else if n = 1 ∧ i.isMin i.e then EDIFACT
+  else if n = 1 ∧ i.isMin i.t then TEXT
+  else if n = 1 ∧ i.isMin i.x then X12
+  else C40
+
+/-- step R: `some m` = return `m`; `none` = go on.  `scan` is the result of the C40/X12 tie scan. -/
+def decideR (i : IntCounts) (scan : Nat) : Option Nat :=
+  let n := i.minCount
+  if i.a < i.b ∧ i.a < i.c ∧ i.a < i.t ∧ i.a < i.x ∧ i.a < i.e then some ASCII
+  else if i.b < i.a ∨ (!(i.isMin i.c) && !(i.isMin i.t) && !(i.isMin i.x) && !(i.isMin i.e)) then some BASE256
+  else if n = 1 ∧ i.isMin i.e then some EDIFACT
+  else if n = 1 ∧ i.isMin i.t then some TEXT
+  else if n = 1 ∧ i.isMin i.x then some X12
+  else if i.c + 1 < i.a ∧ i.c + 1 < i.b ∧ i.c + 1 < i.e ∧ i.c + 1 < i.t then
+    if i.c < i.x then some C40
+    else if i.c = i.x then some scan
+    else none
+  else none
+
+/-- `laLoop` with exact counts and explicit float rounding -/
+def laLoopR (ρ : Bump) : List CharClass → Nat → ECounts → Nat
+  | [], processed, k => decideK (eIntCountsR ρ processed k)
+  | ch :: rest, processed, k =>
+    let k := stepECounts k ch
+    let processed := processed + 1
+    if processed ≥ 4 then
+      match decideR (eIntCountsR ρ processed k) (x12ScanC (rest.drop 1)) with
+      | some m => m
+      | none => laLoopR ρ rest processed k
+    else laLoopR ρ rest processed k
+
+/-- step J: the start values (x 12) -/
+def startCounts (mode : Nat) : ECounts :=
+  if mode = ASCII then ⟨0, 12, 12, 12, 12, 15⟩
+  else
+    let z (m : Nat) (v : Nat) : Nat := if mode = m then 0 else v
+    ⟨z 0 12, z 1 24, z 2 24, z 3 24, z 4 24, z 5 27⟩
+
+/-- HighLevelEncoder_lookAheadTest on character classes (with the X12 / EDIFACT whole-group guards) -/
+def laClsR (ρ : Bump) (cls : List CharClass) (startpos mode : Nat) : Nat :=
+  if startpos ≥ cls.length then mode
+  else
+    let m := laLoopR ρ (cls.drop startpos) 0 (startCounts mode)
+    if m = X12 ∧ !(((cls.drop startpos).take 3).all (·.x12)) then ASCII
+    else if m = EDIFACT ∧ !(((cls.drop startpos).take 4).all (·.edi)) then ASCII
+    else m
+
+/-- HighLevelEncoder_lookAheadTest in exact arithmetic with float rounding `ρ` -/
+def laExactR (ρ : Bump) : LookAhead := fun msg startpos mode => laClsR ρ (msg.map classOf) startpos mode
+
+/-- HighLevelEncoder_lookAheadTest in plain exact arithmetic -/
+def laExact : LookAhead := laExactR noBump
+
+/-- a look-ahead that decides like exact arithmetic up to float rounding at integer sums of thirds — what
+    `HighLevelEncoder_lookAheadTest` (float64) is, by the `laxr` correspondence -/
+def LaFloatLike (la : LookAhead) : Prop := ∀ msg p mode, ∃ ρ, la msg p mode = laExactR ρ msg p mode
+
+/-- bumps from a digit string: character `n-1` is the bit mask (1 = C40, 2 = Text, 4 = X12) of step `n` -/
+def bumpOfDigits (ds : List Nat) : Bump := fun n k =>
+  match ds[n - 1]? with
+  | some d => n ≥ 1 && (d / 2 ^ (k - 1)) % 2 = 1
+  | none => false
+
 end Gzx.DMHighLevel
